@@ -574,6 +574,13 @@ class Normalizer:
                         continue                 # a NEW record class: its simple name means the same record in every module
                     if a is not None and a.kind == "const" and a.mod is hmod and n.id in hc:
                         foreign[n.id] = hc[n.id]
+                    elif a is not None and b is None and a.kind in ("func", "class") and getattr(a.mod, "name", None) in self.repo.mods \
+                            and n.id not in mod.imports and n.id not in mod.funcs and n.id not in mod.assigns and n.id not in mod.class_defs:
+                        # a function / class of the repository that the helper's module knows under this name and the caller's module
+                        # does not bind at all: the inlined body needs the same `from <module> import <name>` the helper's module
+                        # has (or the definition itself) - recorded as an import of the caller's module, where it shadows nothing
+                        mod.imports[n.id] = (a.mod.name, a.name if hasattr(a, "name") else n.id)
+                        self.__dict__.setdefault("imports_added", []).append((mod.name, n.id, a.mod.name))
                     else:
                         ok = False
         cache[key] = ok
@@ -1403,8 +1410,9 @@ def finish(nz, node, cls, mod, do_alias=True, do_shape=True, qual=None):
         if do_alias:
             changed += spelling(node, cls, mod)
             changed += sets_to_flags(node)
+            changed += lists_to_accumulators(node, nz.inv["locals"].get(qual) if qual else None)
             k0 = split_live_ranges(node)
-            k = propagate_aliases(node, mod)
+            k = propagate_aliases(node, mod, nz.inv["locals"].get(qual) if qual else None)
             nz.alias_subst += k0 + k
             if k or k0:
                 changed += k + k0 + spelling(node, cls, mod)      # literals moved into place may enable U1/U3/U5
@@ -1418,6 +1426,89 @@ def finish(nz, node, cls, mod, do_alias=True, do_shape=True, qual=None):
         nz.shape_changes += sh
         if not (changed or sh) or not do_alias:
             break
+
+
+def specialise_new_defaults(repo, nz):
+    """K2: a parameter that the confirmed tree does not have (the inventory lists the local names, parameters included, of every
+    confirmed function), that has a simple default and that NO call in the repository supplies - by keyword, by position, through
+    `*args` / `**kwargs` - has its default value in every execution the repository itself can produce: the parameter is removed
+    and `param = <default>` becomes the first statement, so the constant folds through the body (`if flush:` with flush = True)
+    like any other literal local.  (A caller outside the repository that passes the new argument gets new behaviour by
+    definition; the properties speak about the behaviour the library had before the parameter existed.)"""
+    sites = {}
+    for mod in repo.mods.values():
+        for n in ast.walk(mod.tree):
+            if isinstance(n, ast.Call):
+                nm = n.func.attr if isinstance(n.func, ast.Attribute) else (n.func.id if isinstance(n.func, ast.Name) else None)
+                if nm:
+                    sites.setdefault(nm, []).append(n)
+    done, seen = [], set()
+    for fi in list(repo.funcs.values()):
+        known = nz.inv["locals"].get(fi.qual)
+        if known is None or id(fi.node) in seen:
+            continue
+        seen.add(id(fi.node))
+        a = fi.node.args
+        pos = a.posonlyargs + a.args
+        n_nodef = len(pos) - len(a.defaults)
+        cand = []
+        for i, p_ in enumerate(pos):
+            if i >= n_nodef and p_.arg not in known:
+                cand.append(("pos", i, p_, a.defaults[i - n_nodef]))
+        for p_, d_ in zip(a.kwonlyargs, a.kw_defaults):
+            if d_ is not None and p_.arg not in known:
+                cand.append(("kw", None, p_, d_))
+        if not cand:
+            continue
+        names = {fi.name}
+        if fi.name == "__init__" and fi.cls is not None:
+            names |= {fi.cls.name, "__init__"}
+            for c_ in repo.classes:
+                try:
+                    if fi.cls in c_.mro():
+                        names.add(c_.name)
+                except Exception:
+                    pass
+        calls = [c for nm in names for c in sites.get(nm, [])]
+        is_method = fi.cls is not None and pos and pos[0].arg in ("self", "cls")
+        for kind, i, p_, d_ in reversed(cand):
+            simple = isinstance(d_, ast.Constant) or (isinstance(d_, (ast.Name, ast.Attribute)) and _chain_text(d_) is not None) or \
+                (isinstance(d_, ast.UnaryOp) and isinstance(d_.operand, ast.Constant))
+            if not simple:
+                continue
+            supplied = False
+            for c in calls:
+                if any(k.arg == p_.arg or k.arg is None for k in c.keywords) or any(isinstance(x, ast.Starred) for x in c.args):
+                    supplied = True
+                elif kind == "pos" and len(c.args) > (i - 1 if is_method else i):
+                    supplied = True
+                if supplied:
+                    break
+            # a store to the parameter's name through `global` / closures does not occur for parameters; a nested function that
+            # reads it sees the same value
+            if supplied:
+                continue
+            if kind == "pos":
+                if pos.index(p_) != len(pos) - 1:
+                    continue          # only a trailing parameter is removed (positions of the others stay what they are)
+                if p_ in a.args:
+                    a.args.remove(p_)
+                else:
+                    a.posonlyargs.remove(p_)
+                a.defaults.pop()
+                pos = a.posonlyargs + a.args
+            else:
+                k_ = a.kwonlyargs.index(p_)
+                a.kwonlyargs.pop(k_)
+                a.kw_defaults.pop(k_)
+            at = 1 if fi.node.body and isinstance(fi.node.body[0], ast.Expr) and isinstance(fi.node.body[0].value, ast.Constant) \
+                and isinstance(fi.node.body[0].value.value, str) else 0
+            asg = ast.Assign(targets=[ast.Name(id=p_.arg, ctx=ast.Store())], value=copy.deepcopy(d_))
+            ast.copy_location(asg, fi.node.body[at] if len(fi.node.body) > at else fi.node)
+            ast.fix_missing_locations(asg)
+            fi.node.body.insert(at, asg)
+            done.append((fi.qual, p_.arg, ast.unparse(d_)))
+    nz.new_defaults = done
 
 
 def apply(repo):
@@ -1441,6 +1532,7 @@ def apply(repo):
             seen_d.add(id(fi.node))
             desugar(fi.node, dz)
     nz.desugar = dz.changes
+    specialise_new_defaults(repo, nz)
     if os.environ.get("BSA_FREEZE_CONVENTIONS") == "1":
         nz.conventions = call_conventions(repo)
     else:
@@ -1700,6 +1792,88 @@ def _is_pure_isinstance(e):
     return isinstance(e, ast.Call) and isinstance(e.func, ast.Name) and e.func.id == "isinstance" and len(e.args) == 2 \
         and not e.keywords and _chain_text(e.args[0]) is not None and (
             _chain_text(e.args[1]) is not None or (isinstance(e.args[1], ast.Tuple) and all(_chain_text(x) is not None for x in e.args[1].elts)))
+
+
+def lists_to_accumulators(fn, known_locals=None):
+    """U27: a NEW local list that only collects pieces (`parts = [a]`, `parts.append(e)`, `parts.extend([e, f])`, `parts += [e]`) and
+    is consumed exactly once by `b"".join(parts)` / `"".join(parts)` is the accumulated concatenation: `parts = a` (or the empty
+    constant), `parts += e`, and the join is the name itself.  The pieces are evaluated in the same order; only the moment of
+    concatenation differs, which nothing can observe (the pieces are bytes/str values)."""
+    params = {a.arg for a in fn.args.posonlyargs + fn.args.args + fn.args.kwonlyargs}
+    n_done = 0
+    inits = {}
+    for n in ast.walk(fn):
+        if isinstance(n, ast.Assign) and len(n.targets) == 1 and isinstance(n.targets[0], ast.Name) and isinstance(n.value, ast.List) \
+                and not any(isinstance(e, ast.Starred) for e in n.value.elts):
+            inits.setdefault(n.targets[0].id, []).append(n)
+    for name, defs in inits.items():
+        if len(defs) != 1 or name in params or (known_locals is not None and name in known_locals):
+            continue
+        parents = {}
+        for p_ in ast.walk(fn):
+            for ch in ast.iter_child_nodes(p_):
+                parents[id(ch)] = p_
+        joins, adds, other = [], [], False
+        for n in ast.walk(fn):
+            if not (isinstance(n, ast.Name) and n.id == name) or n is defs[0].targets[0]:
+                continue
+            par = parents.get(id(n))
+            gp = parents.get(id(par)) if par is not None else None
+            ggp = parents.get(id(gp)) if gp is not None else None
+            if isinstance(par, ast.Attribute) and par.attr in ("append", "extend") and isinstance(gp, ast.Call) and gp.func is par \
+                    and len(gp.args) == 1 and not gp.keywords and isinstance(ggp, ast.Expr) \
+                    and (par.attr == "append" or isinstance(gp.args[0], (ast.List, ast.Tuple))):
+                adds.append((ggp, par.attr, gp.args[0]))
+            elif isinstance(par, ast.AugAssign) and par.target is n and isinstance(par.op, ast.Add) and isinstance(par.value, (ast.List, ast.Tuple)):
+                adds.append((par, "extend", par.value))
+            elif isinstance(par, ast.Call) and isinstance(par.func, ast.Attribute) and par.func.attr == "join" and par.args == [n] \
+                    and isinstance(par.func.value, ast.Constant) and par.func.value.value in (b"", ""):
+                joins.append(par)
+            else:
+                other = True
+        if other or len(joins) != 1:
+            continue
+        empty = joins[0].func.value.value
+        d = defs[0]
+        val = None
+        for e in d.value.elts:
+            val = e if val is None else ast.BinOp(left=val, op=ast.Add(), right=e)
+        d.value = val if val is not None else ast.Constant(value=empty)
+        for st, kind, arg in adds:
+            pieces = [arg] if kind == "append" else list(arg.elts)
+            v = None
+            for e in pieces:
+                v = e if v is None else ast.BinOp(left=v, op=ast.Add(), right=e)
+            new = ast.AugAssign(target=ast.Name(id=name, ctx=ast.Store()), op=ast.Add(), value=v if v is not None else ast.Constant(value=empty))
+            ast.copy_location(new, st)
+            _replace_stmt(fn, st, [ast.fix_missing_locations(new)])
+        j = joins[0]
+        par = parents.get(id(j))
+        for f_, v_ in ast.iter_fields(par):
+            if v_ is j:
+                setattr(par, f_, ast.copy_location(ast.Name(id=name, ctx=ast.Load()), j))
+            elif isinstance(v_, list) and j in v_:
+                v_[v_.index(j)] = ast.copy_location(ast.Name(id=name, ctx=ast.Load()), j)
+        ast.fix_missing_locations(fn)
+        n_done += 1
+    return n_done
+
+
+def _replace_stmt(root, old, new_list):
+    for n in ast.walk(root):
+        for f in ("body", "orelse", "finalbody"):
+            b = getattr(n, f, None)
+            if isinstance(b, list) and old in b:
+                i = b.index(old)
+                b[i:i + 1] = new_list
+                return True
+        if isinstance(n, ast.Try):
+            for h in n.handlers:
+                if old in h.body:
+                    i = h.body.index(old)
+                    h.body[i:i + 1] = new_list
+                    return True
+    return False
 
 
 def sets_to_flags(fn):
@@ -2218,8 +2392,27 @@ def deferrable(name, value, later, local_callables=(), mod=None):
     return no_effect_before_reads(name, later, {"<content>"}, _StrictEffects(), local_callables)
 
 
-def propagate_aliases(fn, mod=None):
+_PURE_READERS = {"hex", "decode", "startswith", "endswith", "find", "index", "count", "split", "strip", "lower", "upper", "join",
+                 "isdigit", "rstrip", "lstrip", "replace", "format", "encode", "rfind", "partition", "to_bytes", "bit_length", "copy"}
+
+
+def _mutated_in_place(fn, name):
+    """may the object bound to `name` change in place inside fn?  (conservative: any method call outside the pure readers of
+    str/bytes, any item / slice store or delete, any augmented assignment)"""
+    for n in ast.walk(fn):
+        if isinstance(n, ast.Call) and isinstance(n.func, ast.Attribute) and isinstance(n.func.value, ast.Name) and n.func.value.id == name \
+                and n.func.attr not in _PURE_READERS:
+            return True
+        if isinstance(n, ast.Subscript) and isinstance(n.ctx, (ast.Store, ast.Del)) and isinstance(n.value, ast.Name) and n.value.id == name:
+            return True
+        if isinstance(n, ast.AugAssign) and isinstance(n.target, ast.Name) and n.target.id == name:
+            return True
+    return False
+
+
+def propagate_aliases(fn, mod=None, known_locals=None):
     _MOD[0] = mod
+    unsound_ok = set()
     params = {a.arg for a in fn.args.posonlyargs + fn.args.args + fn.args.kwonlyargs}
     if fn.args.vararg:
         params.add(fn.args.vararg.arg)
@@ -2279,7 +2472,9 @@ def propagate_aliases(fn, mod=None):
     def scan(stmts, depth_ok):
         for i, s in enumerate(stmts):
             if isinstance(s, ast.Assign) and len(s.targets) == 1 and isinstance(s.targets[0], ast.Name) \
-                    and (isinstance(s.value, ast.Constant) and type(s.value.value) in (int, bytes, str)
+                    and (isinstance(s.value, ast.Constant) and (type(s.value.value) in (int, bytes, str) or
+                                                                 type(s.value.value) in (bool, type(None)) and
+                                                                 (known_locals is None or s.targets[0].id not in known_locals))
                          or isinstance(s.value, ast.Tuple) and 1 <= len(s.value.elts) <= 8 and all(
                              isinstance(e, ast.Constant) or (isinstance(e, ast.Name) and stores.get(e.id, 0) == 0 and e.id not in params)
                              or (isinstance(e, ast.Tuple) and 1 <= len(e.elts) <= 4 and all(
@@ -2355,6 +2550,24 @@ def propagate_aliases(fn, mod=None):
                     if all(stores.get(n.id, 0) == 0 for n in ast.walk(s.value) if isinstance(n, ast.Name)):
                         deep.add(name)        # nothing it mentions is ever rebound: also valid inside closures that run later
             elif isinstance(s, ast.Assign) and len(s.targets) == 1 and isinstance(s.targets[0], ast.Name) \
+                    and isinstance(s.value, ast.Call) and isinstance(s.value.func, ast.Name) and s.value.func.id == "len" \
+                    and len(s.value.args) == 1 and not s.value.keywords and isinstance(s.value.args[0], ast.Name) \
+                    and stores.get(s.targets[0].id) == 1 and s.targets[0].id not in params \
+                    and (known_locals is None or s.targets[0].id not in known_locals) \
+                    and stores.get(s.value.args[0].id, 0) == 0 and s.value.args[0].id in params \
+                    and "len" not in stores and "len" not in params \
+                    and not _mutated_in_place(fn, s.value.args[0].id):
+                # P5l: a NEW local that caches len(<parameter>) where the parameter is never rebound and never changed in place
+                # (no method call on it other than pure readers, no item/slice store, no augmented assignment): the length is the
+                # same at every read, so the local stands for `len(p)`
+                name = s.targets[0].id
+                later = stmts[i + 1:]
+                uses_later = sum(1 for t in later for n in ast.walk(t) if isinstance(n, ast.Name) and n.id == name and isinstance(n.ctx, ast.Load))
+                uses_all = sum(1 for n in ast.walk(fn) if isinstance(n, ast.Name) and n.id == name and isinstance(n.ctx, ast.Load))
+                if uses_all and uses_later == uses_all:
+                    cands[name] = (s.value, later)
+                    unsound_ok.add(name)
+            elif isinstance(s, ast.Assign) and len(s.targets) == 1 and isinstance(s.targets[0], ast.Name) \
                     and isinstance(s.value, ast.Name) and s.value.id != s.targets[0].id \
                     and stores.get(s.targets[0].id) == 1 and s.targets[0].id not in params \
                     and (stores.get(s.value.id, 0) == 1 and s.value.id not in params or stores.get(s.value.id, 0) == 0 and s.value.id in params):
@@ -2397,7 +2610,7 @@ def propagate_aliases(fn, mod=None):
     scan(fn.body, True)
     n_sub = 0
     for name, (value, later) in cands.items():
-        if not sound(name, value, later):
+        if name not in unsound_ok and not sound(name, value, later):
             continue
 
         class R(ast.NodeTransformer):
@@ -2470,6 +2683,18 @@ class Spelling(ast.NodeTransformer):
     # U2 / U3 / U5 / U6 on expressions
     def visit_Call(self, n):
         self.generic_visit(n)
+        # U28: re.compile(P[, flags]).fullmatch(s)  ->  re.fullmatch(P, s[, flags=flags])   (module-level functions of `re` compile the
+        # pattern themselves; the same for match / search / findall / sub / split / finditer)
+        if isinstance(n.func, ast.Attribute) and n.func.attr in ("fullmatch", "match", "search", "findall", "finditer", "sub", "subn", "split") \
+                and isinstance(n.func.value, ast.Call) and ast.unparse(n.func.value.func) == "re.compile" and n.func.value.args \
+                and len(n.func.value.args) <= 2 and not n.func.value.keywords and not n.keywords \
+                and len(n.args) == (2 if n.func.attr in ("sub", "subn") else 1):
+            c_ = n.func.value
+            kws = [ast.keyword(arg="flags", value=c_.args[1])] if len(c_.args) == 2 else []
+            self.changes += 1
+            return ast.fix_missing_locations(ast.copy_location(ast.Call(
+                func=ast.Attribute(value=ast.Name(id="re", ctx=ast.Load()), attr=n.func.attr, ctx=ast.Load()),
+                args=[c_.args[0]] + list(n.args), keywords=kws), n))
         # U20: zip(T1, .., Tk) / enumerate(T) over literal tuples of simple elements -> the literal tuple of rows
         if isinstance(n.func, ast.Name) and n.func.id in ("zip", "enumerate") and not n.keywords and n.args \
                 and all(isinstance(a, (ast.Tuple, ast.List)) and all(_simple_val(e) for e in a.elts) for a in n.args[:1 if n.func.id == "enumerate" else None]):
@@ -3252,6 +3477,19 @@ class Spelling(ast.NodeTransformer):
                         out.append(ast.Return(value=ast.Name(id=acc, ctx=ast.Load())))
                     self.changes += 1
                     return [ast.fix_missing_locations(ast.copy_location(x, s)) for x in out]
+        # U21b: acc += b"".join(E for v in it [if c])  ->  for v in it: [if c:] acc += E
+        if isinstance(s, ast.AugAssign) and isinstance(s.op, ast.Add) and isinstance(s.target, ast.Name) and isinstance(s.value, ast.Call) \
+                and isinstance(s.value.func, ast.Attribute) and s.value.func.attr == "join" and len(s.value.args) == 1 and not s.value.keywords \
+                and isinstance(s.value.func.value, ast.Constant) and s.value.func.value.value in (b"", "") \
+                and isinstance(s.value.args[0], (ast.GeneratorExp, ast.ListComp)) and len(s.value.args[0].generators) == 1 \
+                and not s.value.args[0].generators[0].is_async and not _has(s.value, (ast.NamedExpr, ast.Await, ast.Yield, ast.YieldFrom)) \
+                and not any(isinstance(n, ast.Name) and n.id == s.target.id for n in ast.walk(s.value)):
+            g = s.value.args[0].generators[0]
+            body = [ast.AugAssign(target=ast.Name(id=s.target.id, ctx=ast.Store()), op=ast.Add(), value=s.value.args[0].elt)]
+            for c_ in reversed(g.ifs):
+                body = [ast.If(test=c_, body=body, orelse=[])]
+            self.changes += 1
+            return [ast.fix_missing_locations(ast.copy_location(ast.For(target=g.target, iter=g.iter, body=body, orelse=[], lineno=s.lineno), s))]
         # U16: d.update({K: V for t in it [if c]})  ->  for t in it: [if c:] d[K] = V   (it is snapshotted with list() when it reads d:
         #      the comprehension is complete before update() stores anything)
         if isinstance(s, ast.Expr) and isinstance(s.value, ast.Call) and isinstance(s.value.func, ast.Attribute) and s.value.func.attr == "update" \
